@@ -41,7 +41,7 @@ class EIO(Engine):
                    'a mapped file is never truncated by another process (SIGBUS is outside every property)']
     expected_probes = ('write:chunk_boundary_crossed_partial_final_byte', 'write:fault_on_first_write',
                        'write:fault_on_last_write', 'write:torn', 'write:lazy_file_source',
-                       'read:window_ends_mid_byte', 'read:window_at_end', 'fromfile:short', 'roundtrip:ok')
+                       'read:window_ends_mid_byte', 'read:window_at_end', 'fromfile:short', 'roundtrip:ok', 'write:lsb0_mode')
     exhaustive = True
 
     # -------------------------------------------------------------------------------------------------
@@ -103,6 +103,8 @@ class EIO(Engine):
             cfg['bits'] = g.bits(desc['len'])
             cfg['slack'] = g.int(1, 3)
             cfg['off'] = g.pick([1, 3, 8, 13])
+            # knob: the bit-numbering option must not matter for what is written (stored order is mode-independent)
+            cfg['lsb0'] = g.chance(0.3)
         elif desc['mode'] == 'write_real':
             cfg['head'] = g.bits(64)
         elif desc['mode'] in ('read', 'fromfile'):
@@ -120,6 +122,9 @@ class EIO(Engine):
         self.queue = []
         mode = cfg['mode']
         self.B.bits._VERIF_TOFILE_CHUNK_BITS = cfg.get('chunk')
+        if mode == 'write' and cfg.get('lsb0'):
+            self.B.options.lsb0 = True
+            self.probe('write:lsb0_mode')
         if mode == 'write':
             self.obj = self._build_write_subject(cfg)
             self.bits = self._bin(self.obj)
@@ -171,6 +176,7 @@ class EIO(Engine):
     def cleanup(self):
         try:
             self.B.bits._VERIF_TOFILE_CHUNK_BITS = None
+            self.R.reset_options()
         except Exception:
             pass
         if getattr(self, 'fs', None):
